@@ -162,16 +162,98 @@ def real_pos(t):
     return Pos(*POS_XY[t])
 
 
-def prepare_dir(sc, d):
-    """Fresh pyramid directory with the configuration's initial tiles."""
+# ---- the updaters' PyramidIO objects ---------------------------------------------------------------------------------------
+# An updater reaches a tile FILE through its own PyramidIO object.  sc["obj"][p - 1] (None: the plain object) says how p's is made:
+#   default  "given"        default_format = the format of the file
+#            "other1/2"     default_format = another format (the updater then names the file's format in every call)
+#            "guess-before" default_format left out, object constructed BEFORE the directory held any tile (the guess finds nothing)
+#            "guess-after"  default_format left out, object constructed after (the guess finds the tiles)
+#   scheme   None | "kw" | "pos": the path scheme left out / spelled out as keyword / positionally (sc["scheme"], default "L/Y/YX")
+#   base     spelling of the pyramid directory: "abs", "slash" (trailing /), "dslash" (//), "dot" (/./), "dotdot" (x/../x), "symlink"
+OTHER = {"npy": ("fits", "png"), "fits": ("npy", "png"), "png": ("npy", "fits")}
+PLAIN = {"default": "given", "scheme": None, "base": "abs"}
+BYSTANDER = (2, 0, 0)          # a tile nobody updates: what "the directory holds tiles" means for the format guess
+
+
+def obj_of(sc, p):
+    o = (sc.get("obj") or [None] * RP)[p - 1]
+    return dict(PLAIN, **(o or {}))
+
+
+def O(default="given", base="abs", scheme=None):
+    return {"default": default, "base": base, "scheme": scheme}
+
+
+def dflt_of(objs, fmt):
+    """cfg.dflt: the class of each object's default format (0 = the file's format)."""
+    out = []
+    for o in objs:
+        kind = dict(PLAIN, **(o or {}))["default"]
+        if kind.startswith("other"):
+            out.append(int(kind[5:]))
+        elif kind == "guess-before" and fmt != "png":
+            out.append(3)                                    # no tile to look at: the documented fall-back, png
+        else:
+            out.append(0)
+    return out
+
+
+def spelled(d, how):
+    d = os.path.abspath(d)
+    up, name = os.path.dirname(d), os.path.basename(d)
+    if how == "slash":
+        return d + os.sep
+    if how == "dslash":
+        return up + os.sep + os.sep + name
+    if how == "dot":
+        return os.path.join(up, ".", name)
+    if how == "dotdot":
+        return os.path.join(d, "..", name)
+    if how == "symlink":
+        return d + ".lnk"
+    return d
+
+
+def ensure_spellings(sc, d):
+    os.makedirs(d, exist_ok=True)
+    if any(obj_of(sc, p)["base"] == "symlink" for p in range(1, RP + 1)) and not os.path.islink(os.path.abspath(d) + ".lnk"):
+        os.symlink(os.path.abspath(d), os.path.abspath(d) + ".lnk")
+
+
+def make_pio(sc, p, d):
+    """p's own PyramidIO object for the pyramid directory d."""
     from toasty.pyramid import PyramidIO
+    o = obj_of(sc, p)
+    args, kw = [spelled(d, o["base"])] if o["base"] != "abs" else [d], {}
+    scheme = sc.get("scheme", "L/Y/YX")
+    if o["scheme"] == "pos":
+        args.append(scheme)
+    elif o["scheme"] == "kw" or scheme != "L/Y/YX":
+        kw["scheme"] = scheme
+    if o["default"] == "given":
+        kw["default_format"] = sc["fmt"]
+    elif o["default"].startswith("other"):
+        kw["default_format"] = OTHER[sc["fmt"]][int(o["default"][5:]) - 1]
+    return PyramidIO(*args, **kw)
+
+
+def guess_before(sc, p):
+    return obj_of(sc, p)["default"] == "guess-before"
+
+
+def prepare_dir(sc, d):
+    """The pyramid directory with the configuration's initial tiles (and, when the updaters' objects are described, a
+    bystander tile in the file format, so that the directory does hold tiles)."""
+    from toasty.pyramid import PyramidIO, Pos
     from toasty.image import Image
-    pio = PyramidIO(d, default_format=sc["fmt"])
+    pio = PyramidIO(d, scheme=sc.get("scheme", "L/Y/YX"), default_format=sc["fmt"])
     for t in range(1, NPOS + 1):
         init = sc["cfg"]["init"][t - 1]
         if init:
             content = [PRE if j in init else 0 for j in range(1, NPIX + 1)]
             pio.write_image(real_pos(t), Image.from_array(lifted(sc["mode"], content)), format=sc["fmt"])
+    if sc.get("obj"):
+        pio.write_image(Pos(*BYSTANDER), Image.from_array(lifted(sc["mode"], [PRE] * NPIX)), format=sc["fmt"])
     return pio
 
 
@@ -187,29 +269,33 @@ def read_final(pio, sc):
     return tiles
 
 
-def update_kwargs(sc, p):
-    return {"format": sc["fmt"]} if sc["cfg"]["fmt"][p - 1] else {}
+def update_kwargs(sc, p, pio):
+    """The format is named when the configuration says so, and whenever the object's own default is not the file's format."""
+    return {"format": sc["fmt"]} if (sc["cfg"]["fmt"][p - 1] or pio.get_default_format() != sc["fmt"]) else {}
 
 
 # ------------------------------------------------------------------------------------------------
 # configurations
 # ------------------------------------------------------------------------------------------------
 
-def mkcfg(nupd, pos, reg, init=((), ()), keymode="pos", fmt=None, maxp=RP, maxu=RU, env=None):
+def mkcfg(nupd, pos, reg, init=((), ()), keymode="pos", fmt=None, maxp=RP, maxu=RU, env=None, dflt=None, parent=0):
     def pad(seq, n, fill):
         seq = [list(x) if isinstance(x, (list, tuple)) else x for x in seq]
         return seq + [fill] * (n - len(seq))
     nupd = pad(nupd, maxp, 0)
     pos = [pad(r, maxu, 1) for r in pad(pos, maxp, [])]
     reg = [pad([list(x) for x in r], maxu, []) for r in pad(reg, maxp, [])]
+    dflt = pad(dflt or [], maxp, 0)
+    fmt = [1 if dflt[k] else f for k, f in enumerate(pad(fmt or [], maxp, 0))]      # another default: the format must be named
     return {"id": 0, "nupd": nupd, "pos": pos, "reg": reg, "init": [list(init[0]), list(init[1])], "keymode": keymode,
-            "fmt": pad(fmt or [], maxp, 0), "env": pad(env or [], maxp, 0)}
+            "fmt": fmt, "env": pad(env or [], maxp, 0), "dflt": dflt, "parent": parent}
 
 
 def cfg_lit(c):
     return tla.lit({"id": c["id"], "nupd": tuple(c["nupd"]), "pos": tuple(tuple(r) for r in c["pos"]),
                     "reg": tuple(tuple(tuple(x) for x in r) for r in c["reg"]),
-                    "init": tuple(tuple(x) for x in c["init"]), "keymode": c["keymode"], "fmt": tuple(c["fmt"]), "env": tuple(c["env"])})
+                    "init": tuple(tuple(x) for x in c["init"]), "keymode": c["keymode"], "fmt": tuple(c["fmt"]), "env": tuple(c["env"]),
+                    "dflt": tuple(c["dflt"]), "parent": c["parent"]})
 
 
 def mc_configs(quick):
@@ -217,8 +303,9 @@ def mc_configs(quick):
     k = dict(maxp=3, maxu=2)
     cs = [
         mkcfg([2, 2, 2], [[1, 1]] * 3, [[[1], [1, 4]], [[2], [2, 4]], [[3], [3, 4]]], **k),                       # private, then shared
-        mkcfg([2, 2, 2], [[1, 2], [2, 1], [1, 1]], [[[1, 2], [1, 4]], [[2, 3], []], [[3], [1, 2, 3, 4]]], init=((4,), ()), fmt=[0, 1, 0], **k),
+        mkcfg([2, 2, 2], [[1, 2], [2, 1], [1, 1]], [[[1, 2], [1, 4]], [[2, 3], []], [[3], [1, 2, 3, 4]]], init=((4,), ()), fmt=[0, 1, 0], dflt=[0, 2, 3], **k),
         mkcfg([2, 2, 2], [[1, 1]] * 3, [[[1, 2, 3, 4]] * 2] * 3, init=((1, 2), ()), **k),                          # pure last-writer-wins
+        mkcfg([2, 2, 2], [[1, 2], [1, 2], [2, 1]], [[[1, 2], [3]], [[2], [3, 4]], [[1, 4], [4]]], init=((), (1,)), parent=1, dflt=[1, 0, 0], **k),  # fork history
     ]
     if not quick:
         cs += [
@@ -335,6 +422,8 @@ def l1_scenarios(rng, quick):
             out.append(coverage_scenario("png", "rgba", classes, k % 2 == 0, len(out)))
     out += env_scenarios(quick, len(out))
     out += launch_scenarios(quick, len(out))
+    out += object_scenarios(quick, len(out))
+    out += history_scenarios(quick, len(out))
     # separately launched MultiTanProcessor.tile() jobs into one pyramid: serial + workers, workers + serial, both serial
     jobs = [("npy", (1, 2)), ("npy", (2, 1)), ("fits", (1, 1))] if quick else [(f, par) for f in ("npy", "fits") for par in ((1, 2), (2, 1), (1, 1), (2, 2), (1, 3))]
     for fmt, par in jobs:
@@ -386,6 +475,99 @@ def launch_scenarios(quick, start_idx):
             for first in range(1, len(launches[k][0]) + 1):
                 add(k, first)
             add(k, None, caller="toast")
+    return out
+
+
+def object_scenarios(quick, start_idx):
+    """Updaters of one tile FILE whose PyramidIO OBJECTS differ: default format given (the file's / another one) or guessed at
+    construction (before / after the directory held tiles), path scheme left out or spelled out, base directory spelled in
+    different ways - crossed with naming the format in the call or relying on the default.  Each object is made in its
+    updater's own process.  Whatever the objects look like, the updaters of one file must exclude each other."""
+    kinds = [("npy", "f32"), ("fits", "f32"), ("png", "rgba"), ("npy", "f64")]
+    out = []
+
+    def add(k, objs, first, caller=None, scheme=None, two=False, tag=""):
+        n = len(objs)
+        fmt, mode = kinds[k % len(kinds)]
+        objs = list(objs) + [None] * (RP - n)
+        dflt = dflt_of(objs, fmt)
+        idx = start_idx + len(out)
+        if caller:
+            sc = toast_scenario(fmt, mode, n, idx)
+            sc["name"] = "objects-toast-sampler/%s%d/%s" % (tag, n, fmt)
+        else:
+            if two:
+                cfg = mkcfg([2] * n, [[1, 2]] * n, [[[p, 4 if p != 4 else 1], [p]] for p in range(1, n + 1)], init=((), (4,)),
+                            fmt=[p % 2 for p in range(n)], dflt=dflt)
+            else:
+                cfg = mkcfg([1] * n, [[1]] * n, [[[p, 4 if p != 4 else 1]] for p in range(1, n + 1)], init=((3,) if first % 2 else (), ()),
+                            fmt=[(p + 1) % 2 for p in range(n)], dflt=dflt)
+            sc = {"name": "objects-update_image/%sfirst%d/%d/%s" % (tag, first, n, fmt), "fmt": fmt, "mode": mode, "cfg": cfg,
+                  "style": [["full", "slice", "full"]] * RP, "idx": idx, "first": first}
+        sc["obj"] = objs
+        if scheme:
+            sc["scheme"] = scheme
+        sc["deadline"] = 60
+        out.append(sc)
+    mixes = [
+        [O("given"), O("other1", "slash", "kw"), O("guess-before", "symlink"), O("guess-after", "dot", "pos")],
+        [O("other2", "dotdot", "pos"), O("given", "dslash"), O("guess-after", scheme="kw"), O("guess-before", "slash")],
+        [O("other1", "symlink"), O("guess-before", scheme="kw"), O("given", "slash", "pos")],
+        [O("given", "dot"), O("other2"), O("guess-before", "dslash", "kw")],
+    ]
+    if quick:
+        add(0, mixes[0], 2)
+        add(1, mixes[1], 3)
+        add(2, mixes[2], 1)
+        add(3, mixes[3], 1, scheme="LXY", two=True, tag="LXY/")
+        add(0, [O("given"), O("guess-after", "symlink", "kw"), O("guess-after", "slash", "pos")], None, caller="toast")
+    else:
+        for k in range(len(kinds)):
+            for m, mix in enumerate(mixes):
+                for first in range(1, len(mix) + 1):
+                    add(k, mix, first, tag="mix%d/" % m, scheme="LXY" if (k + m) % 3 == 2 else None, two=(m + first) % 2 == 0)
+        others = [O("other1"), O("other2"), O("guess-before"), O("guess-after")]
+        for k in range(len(kinds)):                 # one difference at a time against the plain object, both entering orders
+            for j, o in enumerate(others):
+                for first in (1, 2):
+                    add(k, [O("given"), o], first, tag="pair%d/" % j)
+            for base in ("slash", "dslash", "dot", "dotdot", "symlink"):
+                add(k, [O("given"), O("given", base)], 2, tag=base + "/")
+            add(k, [O("given"), O("guess-after", "symlink", "kw"), O("guess-after", "slash", "pos")], None, caller="toast")
+            add(k, [O("guess-after", "dotdot"), O("given", scheme="pos")], None, caller="toast", scheme="LXY", tag="LXY/")
+    return out
+
+
+def history_scenarios(quick, start_idx):
+    """Fork history: one process makes its own updates FIRST and then forks the contending updaters, which inherit its memory
+    image (anything the first updates left in the process: caches, module state, the PyramidIO object).  The parent's updates
+    happen before every child's (cfg.parent); the children contend as usual."""
+    kinds = [("npy", "f32"), ("fits", "f32"), ("png", "rgba")]
+    out = []
+
+    def add(k, n, first, caller=None):
+        fmt, mode = kinds[k % len(kinds)]
+        idx = start_idx + len(out)
+        if caller:
+            sc = toast_scenario(fmt, mode, n, idx)
+            sc["cfg"]["parent"] = 1
+            sc["name"] = "parent-updates-then-forks/toast-sampler/%d/%s" % (n, fmt)
+        else:
+            cfg = mkcfg([2] + [1] * (n - 1), [[1, 2]] + [[1]] * (n - 1), [[[1], [2]]] + [[[p, 4 if p != 4 else 1]] for p in range(2, n + 1)],
+                        init=((3,), ()), fmt=[p % 2 for p in range(n)], parent=1)
+            sc = {"name": "parent-updates-then-forks/update_image/first%d/%d/%s" % (first, n, fmt), "fmt": fmt, "mode": mode, "cfg": cfg,
+                  "style": [["full", "slice", "full"]] * RP, "idx": idx, "first": first}
+        sc["deadline"] = 60
+        out.append(sc)
+    if quick:
+        add(0, 4, 2)
+        add(1, 3, None, caller="toast")
+    else:
+        for k in range(len(kinds)):
+            for n in (3, 4):
+                for first in range(2, n + 1):
+                    add(k, n, first)
+                add(k, n, None, caller="toast")
     return out
 
 
@@ -450,15 +632,17 @@ def toast_scenario(fmt, mode, n, idx):
     return {"name": "toast-sampler-fresh/%d/%s-%s" % (n, fmt, mode), "fmt": fmt, "mode": mode, "cfg": cfg, "style": None, "idx": idx, "caller": "toast"}
 
 
-def _l1_updater(p, sc, d, sh):
-    """One forked updater process."""
+def _l1_updater(p, sc, d, sh, inherited=None):
+    """One updater process."""
     import warnings
-    from toasty.pyramid import PyramidIO
     warnings.simplefilter("ignore")
-    ticket, cond, inside, overlap, barrier, entered = sh
+    ticket, cond, inside, overlap, barrier, entered, setup = sh
     evdir = os.path.abspath(d)
     events = []
     err = None
+    stuck = []
+    pio = inherited                                           # a child may go on with the object its parent made
+    parent = sc["cfg"].get("parent", 0)
 
     def draw():
         with ticket.get_lock():
@@ -467,7 +651,6 @@ def _l1_updater(p, sc, d, sh):
     try:
         if sc.get("launch") == "spawn":
             repo.setup()                                      # this interpreter has not imported toasty yet
-            from toasty.pyramid import PyramidIO
             how = sc["base"][p - 1]                           # the same pyramid directory, spelled differently
             if how == "rel-parent":
                 os.chdir(os.path.dirname(d))
@@ -487,16 +670,34 @@ def _l1_updater(p, sc, d, sh):
                     os.environ.pop(var, None)
                 else:
                     os.environ[var] = val
+        if setup is not None and guess_before(sc, p):
+            pio = make_pio(sc, p, d)                          # the directory exists and holds no tile yet
+    except BaseException as e:  # noqa
+        err = "%s: %s" % (type(e).__name__, str(e)[:200])
+    if setup is not None:
+        try:
+            setup.wait(120)                                   # every object "constructed before" exists
+            setup.wait(120)                                   # the launcher has written the initial tiles
+        except BaseException as e:  # noqa
+            err = err or "HARNESS: set-up barrier broken (%s)" % type(e).__name__
+    try:
+        if err is not None:
+            raise RuntimeError(err)
         first = sc.get("first")
-        pio = PyramidIO(d, default_format=sc["fmt"])
+        if pio is None:
+            pio = make_pio(sc, p, d)
         cfg = sc["cfg"]
         mode = sc["mode"]
         tiles = {}
         if sc.get("caller") == "toast":
             from toasty.toast import ToastSampler, generate_tiles
+            if pio.get_default_format() != sc["fmt"]:         # this caller cannot name the format: not the same file then
+                raise RuntimeError("HARNESS: the sampling job's PyramidIO has default format %r, the scenario's tiles are %r"
+                                   % (pio.get_default_format(), sc["fmt"]))
             tiles = {tuple(tl.pos): tl for tl in generate_tiles(POS_XY[1][0])}
             flip = pio.get_default_vertical_parity_sign() == 1      # visit_callback flips rows for bottom-up formats
-        barrier.wait(90)
+        if p != parent:
+            barrier.wait(90)
         for i in range(1, cfg["nupd"][p - 1] + 1):
             t = cfg["pos"][p - 1][i - 1]
             region = cfg["reg"][p - 1][i - 1]
@@ -504,14 +705,15 @@ def _l1_updater(p, sc, d, sh):
                 arr = lifted(mode, [rid(p, i) if j in region else 0 for j in range(1, NPIX + 1)])
 
                 def sampler(lon, lat, arr=arr):
-                    barrier.wait(30)                          # the jobs reach this tile together
+                    if p != parent:
+                        barrier.wait(30)                      # the jobs reach this tile together
                     return arr[::-1] if flip else arr
                 ToastSampler(pio, sampler, False).visit_callback(real_pos(t), tiles[POS_XY[t]])
                 continue
             if first and i == 1 and p != first:               # entering order: the designated updater is inside first
                 with cond:                                    # (and, if there is one, the foreign job has finished)
                     cond.wait_for(lambda: entered.value == (2 if sc.get("finisher") else 1), 30)
-            with pio.update_image(real_pos(t), masked_mode=mode_of(mode), default="masked", **update_kwargs(sc, p)) as basis:
+            with pio.update_image(real_pos(t), masked_mode=mode_of(mode), default="masked", **update_kwargs(sc, p, pio)) as basis:
                 t0 = draw()                                   # before the work
                 with cond:                                    # rendezvous: succeeds iff a second body is inside this tile now
                     inside[t] += 1
@@ -527,7 +729,7 @@ def _l1_updater(p, sc, d, sh):
                                 cond.wait_for(lambda: entered.value == 2 or inside[t] >= 2, 30)
                             if inside[t] < 2:
                                 cond.wait(2 * DWELL)
-                    elif i == 1:
+                    elif i == 1 and p != parent:
                         cond.wait(sc["stall"] if (t0 == 1 and sc.get("stall")) else DWELL)   # "stall": the first holder overall
                 px0 = project(basis.asarray(), mode)
                 events.append({"ev": "read", "p": p, "i": i, "px": px0, "t": t0})
@@ -537,11 +739,38 @@ def _l1_updater(p, sc, d, sh):
                     inside[t] -= 1
                 t1 = draw()                                   # after the work
                 events.append({"ev": "modify", "p": p, "i": i, "px": px1, "t": t1})
+        if p == parent:
+            # fork history: this process has completed its own updates; NOW it forks the other updaters (which inherit its
+            # memory image - every second one also goes on with its PyramidIO object, as tile()'s workers do)
+            stuck = _fork_children(sc, d, sh, pio)
     except BaseException as e:  # noqa
         err = "%s: %s" % (type(e).__name__, str(e)[:200])
     with open(os.path.join(evdir, "ev-%d.json" % p), "w") as f:
-        json.dump({"events": events, "error": err}, f)
+        json.dump({"events": events, "error": err, "stuck": stuck}, f)
     os._exit(0)
+
+
+def _fork_children(sc, d, sh, pio):
+    import signal
+    kids = {}
+    for q in range(1, RP + 1):
+        if sc["cfg"]["nupd"][q - 1] > 0 and q != sc["cfg"]["parent"]:
+            pid = os.fork()
+            if pid == 0:
+                _l1_updater(q, sc, d, sh, inherited=pio if q % 2 == 0 else None)       # does not return
+                os._exit(1)
+            kids[pid] = q
+    t_end = time.time() + sc.get("deadline", 60) - 10
+    while kids and time.time() < t_end:
+        pid, _st = os.waitpid(-1, os.WNOHANG)
+        if pid == 0:
+            time.sleep(0.02)
+        else:
+            kids.pop(pid, None)
+    for pid in kids:
+        os.kill(pid, signal.SIGKILL)
+        os.waitpid(pid, 0)
+    return sorted(kids.values())
 
 
 def _l1_finisher(sc, d, sh):
@@ -550,7 +779,7 @@ def _l1_finisher(sc, d, sh):
     level-2 layer; like every multi_tan / multi_wcs job it ends with pio.clean_lockfiles(level))."""
     import warnings
     warnings.simplefilter("ignore")
-    ticket, cond, inside, overlap, barrier, entered = sh
+    ticket, cond, inside, overlap, barrier, entered, _setup = sh
     err = None
     try:
         from toasty import collection, multi_tan
@@ -597,14 +826,18 @@ def _l1_run(sc, d):
     import multiprocessing as mp
     spawn = sc.get("launch") == "spawn"
     ctx = mp.get_context("spawn" if spawn else "fork")
-    os.makedirs(d, exist_ok=True)
-    pio = prepare_dir(sc, d)
+    ensure_spellings(sc, d)
+    hetero = bool(sc.get("obj"))          # objects described: some are made before the directory holds tiles
+    pio = None if hetero else prepare_dir(sc, d)
     procs = [p for p in range(1, RP + 1) if sc["cfg"]["nupd"][p - 1] > 0]
+    parent = sc["cfg"].get("parent", 0)
+    started = [parent] if parent else procs                   # a forking parent starts the others itself
     sh = (ctx.Value("i", 0), ctx.Condition(), ctx.Array("i", NPOS + 1, lock=False), ctx.Value("i", 0, lock=False),
-          ctx.Barrier(len(procs) + (1 if sc.get("finisher") else 0)), ctx.Value("i", 0, lock=False))
+          ctx.Barrier(len(procs) - (1 if parent else 0) + (1 if sc.get("finisher") else 0)), ctx.Value("i", 0, lock=False),
+          ctx.Barrier(len(procs) + 1) if hetero else None)
     t0 = time.time()
     ws = []
-    for p in procs:
+    for p in started:
         w = ctx.Process(target=_l1_updater, args=(p, sc, d, sh))
         if spawn:
             # a separately started interpreter: launched with its own environment (what Python reads at start-up - the str
@@ -624,25 +857,32 @@ def _l1_run(sc, d):
         else:
             w.start()
         ws.append(w)
+    if hetero:
+        sh[6].wait(120)                                       # the objects "constructed before the directory held tiles" exist
+        pio = prepare_dir(sc, d)
+        sh[6].wait(120)
     fin = None
     if sc.get("finisher"):
         fin = ctx.Process(target=_l1_finisher, args=(sc, d, sh))
         fin.start()
     stuck = []
     deadline = time.time() + sc.get("deadline", 60)
-    for p, w in zip(procs, ws):
+    for p, w in zip(started, ws):
         w.join(max(0.1, deadline - time.time()))
         if w.is_alive():
             stuck.append(p)
             w.kill()
             w.join()
     events, errors = [], {}
-    for p in procs:
+    for p in ([parent] if parent else []) + [q for q in procs if q != parent]:      # (the parent reports which children it killed)
         path = os.path.join(d, "ev-%d.json" % p)
         if os.path.exists(path):
             rec = json.load(open(path))
             events += rec["events"]
+            stuck += rec.get("stuck") or []
             if rec["error"]:
+                if rec["error"].startswith(("HARNESS:", "RuntimeError: HARNESS:")):
+                    raise RuntimeError(rec["error"])
                 errors[p] = rec["error"]
         elif p not in stuck:
             errors[p] = "updater exited without a recording"
@@ -994,6 +1234,10 @@ class _VirtualTime(object):
         return time.time() + self.offset
 
 
+class MachineryInHarness(Exception):
+    pass
+
+
 class Harness(object):
     GATE_PC = {"try": None, "read": "locked", "modify": "read", "wbegin": "modified", "wend": "writing", "release": "written"}
 
@@ -1002,6 +1246,10 @@ class Harness(object):
         self.S = simmp.Sched()
         self.sc = sc
         self.d = d
+        self._canon = {}
+        ensure_spellings(sc, d)
+        # the updaters' own PyramidIO objects; those "constructed before the directory held tiles" are made now
+        self.pios = {p: make_pio(sc, p, d) for p in range(1, RP + 1) if sc.get("obj") and sc["cfg"]["nupd"][p - 1] > 0 and guess_before(sc, p)}
         self.pio = prepare_dir(sc, d)
         self.info = {}
         self.events = []
@@ -1013,7 +1261,14 @@ class Harness(object):
         self.gates_seen = set()
         self._tile_cache = {}
         self.lock_files = set()
-        self.tile_paths = {self.pio.tile_path(real_pos(t), format=sc["fmt"], makedirs=False) for t in range(1, NPOS + 1)}
+        self.tile_paths = {self.canon(self.pio.tile_path(real_pos(t), format=sc["fmt"], makedirs=False)) for t in range(1, NPOS + 1)}
+
+    def canon(self, path):
+        """One name per file, however the updater's object spells the directory."""
+        path = os.fspath(path)
+        if path not in self._canon:
+            self._canon[path] = os.path.realpath(path)
+        return self._canon[path]
 
     # -- actor side
     def gate(self, kind, *payload):
@@ -1035,9 +1290,12 @@ class Harness(object):
         sc, cfg, mode = self.sc, self.sc["cfg"], self.sc["mode"]
         name = "p%d" % p
         st = self.info[name]
-        pio = PyramidIO(self.d, default_format=sc["fmt"])
+        pio = self.pios.get(p) or make_pio(sc, p, self.d)
         if sc.get("caller") == "toast":
             from toasty.toast import ToastSampler, generate_tiles
+            if pio.get_default_format() != sc["fmt"]:
+                raise MachineryInHarness("the sampling job's PyramidIO has default format %r, the scenario's tiles are %r"
+                                         % (pio.get_default_format(), sc["fmt"]))
             tiles = {tuple(tl.pos): tl for tl in generate_tiles(POS_XY[1][0])}
             flip = pio.get_default_vertical_parity_sign() == 1
             for i in range(1, cfg["nupd"][p - 1] + 1):
@@ -1053,7 +1311,7 @@ class Harness(object):
         for i in range(1, cfg["nupd"][p - 1] + 1):
             st.update(i=i, tried=False, buf=None)
             t = cfg["pos"][p - 1][i - 1]
-            with pio.update_image(real_pos(t), masked_mode=mode_of(mode), default="masked", **update_kwargs(sc, p)) as basis:
+            with pio.update_image(real_pos(t), masked_mode=mode_of(mode), default="masked", **update_kwargs(sc, p, pio)) as basis:
                 who = self.inside.setdefault(t, set())
                 who.add(name)
                 if len(who) >= 2:
@@ -1089,9 +1347,9 @@ class Harness(object):
                     me = H.S.me()
                     if me is not None and not H.S.killed and not H.info[me].get("in_release"):
                         sp = os.fspath(path)
-                        if isinstance(sp, str) and (sp.endswith(".lock") or sp in H.lock_files):
+                        if isinstance(sp, str) and (sp.endswith(".lock") or H.canon(sp) in H.lock_files):
                             H.gate("unlink-lock", sp)
-                        elif isinstance(sp, str) and sp in H.tile_paths:
+                        elif isinstance(sp, str) and H.canon(sp) in H.tile_paths:
                             H.log("wbegin")           # write_image of a completely masked buffer: the tile file is removed
                     return orig(path, *a, **k)
                 return delete
@@ -1100,14 +1358,14 @@ class Harness(object):
                 me = H.S.me()
                 if me is None:
                     return o_acq(self)
-                H.lock_files.add(self.lock_file)
+                H.lock_files.add(H.canon(self.lock_file))
                 H.gate("try", self.lock_file)
                 o_acq(self)
                 ok = bool(self.is_locked)
                 if not H.S.killed:
                     H.info[me]["tried"] = True
                     if ok:
-                        H.holder[self.lock_file] = me
+                        H.holder[H.canon(self.lock_file)] = me
                         H.info[me]["holding"] = self.lock_file
                     H.log("try", ok=ok)
 
@@ -1121,8 +1379,8 @@ class Harness(object):
                     o_rel(self)
                 finally:
                     H.info[me]["in_release"] = False
-                if H.holder.get(self.lock_file) == me:
-                    del H.holder[self.lock_file]
+                if H.holder.get(H.canon(self.lock_file)) == me:
+                    del H.holder[H.canon(self.lock_file)]
                 H.info[me]["holding"] = None
                 if not H.S.killed:
                     H.log("release")
@@ -1133,7 +1391,7 @@ class Harness(object):
                     return o_read(self, pos, *a, **k)
                 H.gate("read")
                 fmt = k.get("format")
-                path = self.tile_path(pos, format=fmt, makedirs=False)
+                path = H.canon(self.tile_path(pos, format=fmt, makedirs=False))
                 if path in H.writing and H.info[me].get("holding"):
                     H.partial_read = True
                 return o_read(self, pos, *a, **k)
@@ -1150,14 +1408,14 @@ class Harness(object):
                 except OSError:
                     pass
                 open(path_or_stream, "wb").close()
-                H.writing.add(path_or_stream)
+                H.writing.add(H.canon(path_or_stream))
                 if not H.S.killed:
                     H.log("wbegin")
                 H.gate("wend", path_or_stream)
                 try:
                     return o_save(self, path_or_stream, *a, **k)
                 finally:
-                    H.writing.discard(path_or_stream)
+                    H.writing.discard(H.canon(path_or_stream))
                     if not H.S.killed:
                         H.log("wend")
             filelock.SoftFileLock._acquire, filelock.SoftFileLock._release = _acquire, _release
@@ -1202,7 +1460,7 @@ class Harness(object):
 
     def tile_state(self, t):
         path = self.pio.tile_path(real_pos(t), format=self.sc["fmt"], makedirs=False)
-        if path in self.writing:
+        if self.canon(path) in self.writing:
             return {"st": "partial", "px": [0] * NPIX}
         try:
             st = os.stat(path)
@@ -1240,12 +1498,15 @@ class Harness(object):
             buf.append(st["buf"])
         hold = []
         for t in range(1, NPOS + 1):
-            lp = self.pio.tile_path(real_pos(t), makedirs=False) + ".lock"
+            lp = self.canon(self.pio.tile_path(real_pos(t), makedirs=False) + ".lock")
             owner = self.holder.get(lp)
             hold.append(int(owner[1:]) if (owner and os.path.exists(lp)) else (0 if not os.path.exists(lp) else -1))
         return {"pc": pc, "upd": upd, "buf": buf, "tile": [self.tile_state(t) for t in range(1, NPOS + 1)], "hold": hold}
 
     def recording(self, schedule=None):
+        for e in self.failed().values():
+            if isinstance(e, MachineryInHarness):
+                raise e
         errors = {n: "%s: %s" % (type(e).__name__, str(e)[:160]) for n, e in self.failed().items()}
         return {"events": list(self.events), "tiles": read_final(self.pio, self.sc), "overlap": self.overlap,
                 "partial_read": self.partial_read, "errors": errors, "schedule": schedule}
@@ -1256,14 +1517,24 @@ ACT_GATE = {"TryAcquire": "try", "TryFail": "try", "Read": "read", "Modify": "mo
 
 
 def sim_configs():
-    c = [
-        mkcfg([2, 2, 2], [[1, 1]] * 3, [[[1], [1, 4]], [[2], [2, 4]], [[3], [3, 4]]], fmt=[0, 1, 0]),
-        mkcfg([2, 2, 2], [[1, 2], [2, 1], [1, 1]], [[[1, 2], [1, 4]], [[2, 3], [3]], [[3], [1, 2, 3, 4]]], init=((4,), ()), fmt=[0, 0, 1]),
-        mkcfg([1, 1, 1, 1], [[1]] * 4, [[[1, 2]], [[2, 3]], [[3, 4]], [[4, 1]]], init=((1, 2, 3, 4), ())),
-        mkcfg([3, 3], [[1, 1, 1]] * 2, [[[1], [1, 2], [3]], [[1, 2, 3, 4], [4], [2]]], fmt=[1, 0]),
-    ]
     kinds = [("npy", "f32"), ("fits", "f32"), ("png", "rgba"), ("npy", "f64")]
-    return [{"name": "sim%d" % k, "fmt": kinds[k][0], "mode": kinds[k][1], "cfg": cfg, "idx": k,
+    # the updaters' PyramidIO objects differ (default format given / another / guessed before or after the tiles were there,
+    # scheme spelled out, directory spelled differently)
+    objs = [
+        [O("given"), O("other1", "slash", "kw"), O("guess-before", "symlink")],
+        [O("guess-after", "dotdot"), O("given", "dot", "pos"), O("other2")],
+        [O("given"), O("other1", "dslash"), O("given", "symlink", "kw"), O("guess-before")],
+        [O("other2", "symlink", "pos"), O("guess-after")],
+    ]
+    objs = [o + [None] * (RP - len(o)) for o in objs]
+    dflt = [dflt_of(o, kinds[k][0]) for k, o in enumerate(objs)]
+    c = [
+        mkcfg([2, 2, 2], [[1, 1]] * 3, [[[1], [1, 4]], [[2], [2, 4]], [[3], [3, 4]]], fmt=[0, 1, 0], dflt=dflt[0]),
+        mkcfg([2, 2, 2], [[1, 2], [2, 1], [1, 1]], [[[1, 2], [1, 4]], [[2, 3], [3]], [[3], [1, 2, 3, 4]]], init=((4,), ()), fmt=[0, 0, 1], dflt=dflt[1]),
+        mkcfg([1, 1, 1, 1], [[1]] * 4, [[[1, 2]], [[2, 3]], [[3, 4]], [[4, 1]]], init=((1, 2, 3, 4), ()), dflt=dflt[2]),
+        mkcfg([3, 3], [[1, 1, 1]] * 2, [[[1], [1, 2], [3]], [[1, 2, 3, 4], [4], [2]]], fmt=[1, 0], dflt=dflt[3]),
+    ]
+    return [{"name": "sim%d" % k, "fmt": kinds[k][0], "mode": kinds[k][1], "cfg": cfg, "idx": k, "obj": objs[k],
              "style": [["full", "slice", "full"], ["slice", "full", "slice"], ["full", "full", "slice"], ["slice", "slice", "full"]]}
             for k, cfg in enumerate(c)]
 
@@ -1489,8 +1760,12 @@ def run(ctx):
         live.append(mkcfg([2, 2, 2], [[1, 1]] * 3, [[[1], [1, 4]], [[2], [2, 4]], [[3], [3, 4]]], maxp=3, maxu=2))
     bg.start("live", lambda: ctx.tlc("MCTileLockLive", extra={"MCTileLockLive.tla": mc_module("MCTileLockLive", live)},
                                      cfg_text=MC_CFG % ("FairSpec", 3, 2, "INVARIANT Mutex\nPROPERTY Termination"), workers=2, timeout=3000))
-    for km in ("proc", "fmt", "env"):
+    for km in ("proc", "fmt", "env", "dflt", "owner"):
         neg = [mkcfg([1, 1], [[1, 1]] * 2, [[[1], [1]], [[2], [2]]], keymode=km, fmt=[0, 1], env=[1, 0], maxp=3, maxu=2)]
+        if km == "dflt":        # two PyramidIO objects with different default formats, both naming the file's format in the call
+            neg = [mkcfg([1, 1], [[1, 1]] * 2, [[[1], [1]], [[2], [2]]], keymode=km, dflt=[0, 2], maxp=3, maxu=2)]
+        if km == "owner":       # a process updates, THEN forks two updaters: they share the identity it memoised
+            neg = [mkcfg([1, 1, 1], [[2], [1], [1]], [[[1]], [[1]], [[2]]], keymode=km, parent=1, maxp=3, maxu=2)]
         bg.start("neg-" + km, (lambda neg=neg, km=km: ctx.tlc("MCTileLockNeg", extra={"MCTileLockNeg.tla": mc_module("MCTileLockNeg", neg)},
                                                               cfg_text=MC_CFG % ("Spec", 3, 2, "INVARIANT NoLostUpdate"), workers=1, timeout=600,
                                                               expect_violation=True, count=False)))
@@ -1526,7 +1801,10 @@ def run(ctx):
         if not all(g in probe["gates"] for g in ("read", "modify", "wbegin", "wend")):
             ctx.drift("update_image reaches SoftFileLock but not read_image / Image.save (gates seen: %s)" % probe["gates"])
         # 2b exhaustive: 2 processes x 1 update on one tile, at most one failed attempt each
-        dfs_sc = {"name": "dfs-2x1", "fmt": "npy", "mode": "f32", "cfg": mkcfg([1, 1], [[1]] * 2, [[[1, 4]], [[2, 4]]], init=((3,), ()), fmt=[0, 1]),
+        # (the two updaters' PyramidIO objects differ: default format npy / png, the second one names the format in the call)
+        dfs_obj = [O("given"), O("other2", "slash"), None, None]
+        dfs_sc = {"name": "dfs-2x1", "fmt": "npy", "mode": "f32", "obj": dfs_obj,
+                  "cfg": mkcfg([1, 1], [[1]] * 2, [[[1, 4]], [[2, 4]]], init=((3,), ()), fmt=[0, 1], dflt=dflt_of(dfs_obj, "npy")),
                   "style": [["full"] * RU, ["slice"] * RU] + [["full"] * RU] * 2, "idx": 0}
         t_2b = time.time()
         fb = 1 if quick else 3
@@ -1554,7 +1832,8 @@ def run(ctx):
         ctx.note("dfs_2x1", {"schedules": nruns, "complete": explored_all, "failed_attempts_per_updater_at_most": fb})
         # 2b exhaustive: one updater with two updates of the tile, one with one (anything an updater does to the lock between
         # or after its updates meets a live holder here)
-        dfs21 = dict(dfs_sc, name="dfs-2+1", cfg=mkcfg([2, 1], [[1, 1], [1]], [[[1, 4], [3]], [[2, 4]]], fmt=[0, 1]))
+        obj21 = [O("guess-before", "symlink"), O("guess-after", scheme="kw"), None, None]      # default guessed: png before, npy after
+        dfs21 = dict(dfs_sc, name="dfs-2+1", obj=obj21, cfg=mkcfg([2, 1], [[1, 1], [1]], [[[1, 4], [3]], [[2, 4]]], fmt=[0, 1], dflt=dflt_of(obj21, "npy")))
         stack, n21, cap21 = [[]], 0, (120 if quick else 3000)
         while stack and n21 < cap21:
             prefix = stack.pop()
@@ -1578,6 +1857,7 @@ def run(ctx):
         tdfs = toast_scenario("npy", "f32", 2, 0)
         tdfs["cfg"] = mkcfg([1, 1], [[1]] * 2, [[[1, 4]], [[2, 4]]])
         tdfs["name"] = "dfs-toast-sampler-fresh-2x1"
+        tdfs["obj"] = [O("given"), O("guess-after", "symlink", "pos"), None, None]
         stack, truns = [[]], 0
         while stack and truns < cap:
             prefix = stack.pop()
@@ -1639,8 +1919,9 @@ def run(ctx):
         nstall = 0
         for gate_name in ("modify", "wbegin", "wend", "release"):
             for fmt, mode in (("npy", "f32"), ("fits", "f32"), ("png", "rgba")) if (not quick or gate_name == "modify") else (("npy", "f32"),):
-                sc = {"name": "stall-holder-before-%s/%s" % (gate_name, fmt), "fmt": fmt, "mode": mode,
-                      "cfg": mkcfg([1, 2], [[1], [1, 1]], [[[1, 4]], [[2, 4], [3]]], init=((3,), ()), fmt=[0, 1]),
+                sobj = [O("other1", "dot"), O("given"), None, None]
+                sc = {"name": "stall-holder-before-%s/%s" % (gate_name, fmt), "fmt": fmt, "mode": mode, "obj": sobj,
+                      "cfg": mkcfg([1, 2], [[1], [1, 1]], [[[1, 4]], [[2, 4], [3]]], init=((3,), ()), fmt=[0, 1], dflt=dflt_of(sobj, fmt)),
                       "style": [["full"] * RU, ["slice"] * RU] + [["full"] * RU] * 2, "idx": 0}
                 rec, _ = explore_run(sc, ctx.mkdtemp("stall"), stall_chooser(gate_name, 40))
                 traces.append(("thread-level schedule", sc, rec, []))
@@ -1708,7 +1989,7 @@ def run(ctx):
     t_bg = time.time()
     bg.join()
     ctx.note("phase_wall", {"layer1_wait": round(t_bg - t_l1, 1), "tlc_wait": round(time.time() - t_bg, 1)})
-    for km in ("proc", "fmt", "env"):
+    for km in ("proc", "fmt", "env", "dflt", "owner"):
         if bg.results["neg-" + km].violated != "NoLostUpdate":
             ctx.machinery("the specification does not refute the lock-key design %r (got %r)" % (km, bg.results["neg-" + km].violated))
     for inv_name in ("Mutex", "NoLostUpdate"):
@@ -1716,6 +1997,8 @@ def run(ctx):
             ctx.machinery("the specification does not refute 'finite lock timeout + takeover' on %s (got %r)"
                           % (inv_name, bg.results["neg-steal-" + inv_name].violated))
     ctx.note("refuted_designs", ["lock key per process", "lock key per format argument", "lock class (exclusion domain) chosen from the updater's environment",
+                                  "lock key from the PyramidIO object's default format instead of the file updated",
+                                  "lock owned by an identity memoised per memory image (shared by the children of a process that has updated before forking)",
                                   "finite lock timeout + takeover (StealLock)"])
     ctx.note("mc_configs", len(mcs))
     ctx.note("mc_bound", "3 processes x 2 updates, 4 abstract pixels, 2 tiles; all interleavings")
@@ -1765,6 +2048,7 @@ def run(ctx):
         ctx.note("lock_files_left_before_clean_lockfiles", left[:5])
     ctx.assume("the file system gives atomic exclusive create (O_CREAT|O_EXCL) and unlink; no updater crashes while holding the lock "
                "(a stale lock file blocks later updaters: clean_lockfiles is for that)")
-    ctx.assume("every updater of a tile uses PyramidIO objects with the same base directory and default format")
+    ctx.assume("'the same tile' = the same tile FILE: the updaters' PyramidIO objects name the same directory (in any spelling), use the same "
+               "path scheme and address the same stored format (by their default or by the format argument); they may differ in anything else")
     ctx.assume("thread-level runs stand for processes: SoftFileLock's exclusion is by file existence, identical for threads and processes; "
                "Image.save is taken to open its destination for writing before the data is there (the harness truncates at that point)")
